@@ -16,25 +16,18 @@ EXTENDS ChainImport
 
 TraceLog == ndJsonDeserialize("trace.ndjson")
 VARIABLES l,     \* next line
+          eng,   \* engine of the current behaviour (from its tree event): TRUE = ucon header dispatch
           P,     \* model state before the last import
           O,     \* the model's write plan of the last import
           W      \* the real writes of the last import
-tvars == <<vars, l, P, O, W>>
-
-RECURSIVE SegOps(_, _, _)
-SegOps(s, bs, f) ==
-   IF bs = <<>> THEN <<>>
-   ELSE LET d == Dispatch(s, Head(bs), f) IN
-        IF d = "skip" THEN SegOps(s, Tail(bs), f)
-        ELSE IF d = "write" THEN LET p == Plan(s, Head(bs), f) IN p \o SegOps(RunOps(s, p, f), Tail(bs), f)
-        ELSE <<>>
+tvars == <<vars, l, eng, P, O, W>>
 
 OpRec(o) == [k |-> o.op, b |-> IF o.op = "deltx" THEN "" ELSE o.b, t |-> IF o.op = "txl" THEN o.t ELSE "",
              txs |-> IF o.op = "batch" THEN Txs(o.b) ELSE IF o.op = "deltx" THEN o.txs ELSE {}]
 WRec(w) == [k |-> w.k, b |-> w.b, t |-> w.t, txs |-> { w.txs[i] : i \in DOMAIN w.txs }]
 Silent(w) == w.k \in {"trie", "other"}
 RealSeq(ws) == LET q == SelectSeq(ws, LAMBDA w : ~Silent(w)) IN [i \in DOMAIN q |-> WRec(q[i])]
-PlanSeq(ops) == LET q == SelectSeq(ops, LAMBDA o : o.op # "st") IN [i \in DOMAIN q |-> OpRec(q[i])]
+PlanSeq(ops) == LET q == SelectSeq(ops, LAMBDA o : o.op \notin {"st", "panic"}) IN [i \in DOMAIN q |-> OpRec(q[i])]
 
 \* plan operations left after the real writes ws: the first trie batch completes a pending "st"
 RECURSIVE Consume(_, _)
@@ -51,37 +44,30 @@ SameObs(o, s) == LET m == ObsOf(s) IN
    /\ \A n \in 1..(MaxN + 1) : o.canon[n] = m.canon[n]
    /\ \A t \in AllTx : o.txl[t] = m.txl[t]
 
-ModeOf(s, bs) == LET RECURSIVE First(_, _)
-                     First(x, q) == IF q = <<>> THEN "none"
-                                    ELSE LET d == Dispatch(x, Head(q), "G") IN
-                                         IF d = "skip" THEN First(x, Tail(q))
-                                         ELSE IF d = "write" THEN (IF Par(Head(q), "G") = x.cur THEN "extend" ELSE "reorg")
-                                         ELSE "none"
-                 IN First(s, bs)
-
 TStep ==
    /\ l <= Len(TraceLog)
    /\ l' = l + 1
    /\ LET e == TraceLog[l] IN
-      CASE e.ev \in {"reset", "abort"} -> S' = S0 /\ P' = S0 /\ O' = <<>> /\ W' = <<>>
+      CASE e.ev \in {"reset", "abort"} -> S' = S0 /\ P' = S0 /\ O' = <<>> /\ W' = <<>> /\ UNCHANGED eng
+        [] e.ev = "tree" -> eng' = (e.engine = "ucon") /\ UNCHANGED <<S, P, O, W>>
         [] e.ev = "import" ->
-             LET ops == SegOps(S, e.seg, "G")
+             LET ops == CallOps(S, e.seg, TRUE, "G", eng, 3)
                  s2 == RunOps(S, ops, "G") IN
              /\ RealSeq(e.writes) = PlanSeq(ops)
              /\ SameObs(e.obs, s2)
-             /\ e.mode = ModeOf(S, e.seg)
-             /\ S' = s2 /\ P' = S /\ O' = ops /\ W' = e.writes
+             /\ e.mode = ModeOfOps(S, ops, "G")
+             /\ S' = s2 /\ P' = S /\ O' = ops /\ W' = e.writes /\ UNCHANGED eng
         [] e.ev = "restart" ->
              LET left == Consume(SubSeq(W, 1, e.j + 1), O)
                  sj == RunOps(P, SubSeq(O, 1, Len(O) - Len(left)), "G")
                  h == Repair(sj, sj.headB, "G") IN
              /\ e.ok
              /\ SameObs(e.obs, [sj EXCEPT !.cur = h, !.headH = h])
-             /\ UNCHANGED <<S, P, O, W>>
-        [] OTHER -> UNCHANGED <<S, P, O, W>>
-   /\ UNCHANGED <<todo, pend, seg, phase, mode, wrote, lastop, crashes, fp, refHead, hist>>
+             /\ UNCHANGED <<S, P, O, W, eng>>
+        [] OTHER -> UNCHANGED <<S, P, O, W, eng>>
+   /\ UNCHANGED <<todo, seg, phase, mode, wrote, lastop, crashes, fp, refHead, pruned, hist>>
 
-TInit == Init /\ l = 1 /\ P = S0 /\ O = <<>> /\ W = <<>> /\ TLCSet(1, 0)
+TInit == Init /\ l = 1 /\ eng = FALSE /\ P = S0 /\ O = <<>> /\ W = <<>> /\ TLCSet(1, 0)
 TSpec == TInit /\ [][TStep]_tvars
 
 HighWater == /\ TLCSet(1, IF TLCGet(1) < l THEN l ELSE TLCGet(1))
